@@ -719,7 +719,8 @@ def sensitivity_selftest(pid):
     import glob
     import tempfile
     out = []
-    for d in sorted(glob.glob(os.path.join(VERIF, 'seeded', pid + '_*'))) + sorted(glob.glob(os.path.join(VERIF, 'seeded2', pid + '_*'))):
+    # the first-wave seeds only (three per property): each costs one complete quick check on a scratch tree; dev/seedmatrix.py runs all 120
+    for d in sorted(glob.glob(os.path.join(VERIF, 'seeded', pid + '_*'))):
         patch = os.path.join(d, 'patch.diff')
         if not os.path.exists(patch):
             continue
